@@ -247,4 +247,3 @@ func c09One(c *vc.Ctx, t synCase) *vc.Fail {
 		Detail: k.problems,
 	}
 }
-
